@@ -86,6 +86,23 @@ def adversarial_inputs(ents, rng):
                 if d["kind"] == "enum" and d.get("tag"):
                     ms += [(d["tag"], coregen.vstr(coregen.G.unraw(d["variants"][-1]["ident"]))), (d["tag"], coregen.vint(1))]
                 out.append({"ty": eid, "val": coregen.vmap(ms), "src": "ov", "grp": "start", "perm": False, "auto": auto, "perms": []})
+                # the same key twice with valid values and nothing else wrong: as many members as the type has keys, or one more,
+                # while another field is absent (counting members instead of tracking fields would go wrong here)
+                pg = coregen.PayloadGen(rng)
+                var = next(v for v in d["variants"] if v["fields"]) if d["kind"] == "enum" else None
+                vname = None if var is None else (var["rename"] if var.get("rename") is not None else
+                                                  (coregen.camel(coregen.G.unraw(var["ident"])) if d.get("rename_all") == "camelCase" else
+                                                   (coregen.G.unraw(var["ident"]).lower() if d.get("rename_all") == "lowercase" else coregen.G.unraw(var["ident"]))))
+                tagms = [(d["tag"], coregen.vstr(vname))] if d["kind"] == "enum" and d.get("tag") else []
+                keyof = lambda ff: coregen.effkey(d, ff, var)
+                gv = lambda ff: pg.gen(ff["from"]["ty"] if ff.get("from") else ff["ty"], 0.0)
+                if d["kind"] == "struct" or tagms:
+                    for reps in (len(fields), len(fields) + 1, 2):
+                        out.append({"ty": eid, "val": coregen.vmap(tagms + [(keyof(f), gv(f)) for _ in range(reps)]), "src": "ov", "grp": "start",
+                                    "perm": False, "auto": auto, "perms": []})
+                    if len(fields) >= 2:
+                        out.append({"ty": eid, "val": coregen.vmap(tagms + [(keyof(ff), gv(ff)) for ff in fields[:-1]] + [(keyof(f), gv(f))]), "src": "ov",
+                                    "grp": "start", "perm": False, "auto": auto, "perms": []})
         # nesting: the payload nested 40 levels inside sequences / objects (the Json module of TLC stops at ~250 levels)
         v = coregen.vint(1)
         for i in range(30):
